@@ -62,9 +62,23 @@ fn inner(seed: u64, actions: &mut Vec<String>, reads: &mut u64, nontrivial: &mut
     let log: Rc<RefCell<Vec<Ev>>> = Rc::new(RefCell::new(vec![]));
     // an earlier dependant of l: B1's lhs-change node is then not the dependant that is recomputed
     // directly when l changes
+    // B1's input is `l` itself, or a switch between a short and a tall route to `l` (same value):
+    // flipping it makes B1's input taller or shorter without B1 re-running (defects #15, #24, #30)
+    let grow = st.var(false);
+    let switching = rng.chance(1, 2);
+    let l_in: Incr<i64> = if switching {
+        let short = l.watch();
+        let mut tall = l.map(|v| *v);
+        for _ in 0..2 + rng.below(4) {
+            tall = tall.map(|v| *v);
+        }
+        grow.bind(move |g| if *g { tall.clone() } else { short.clone() })
+    } else {
+        l.watch()
+    };
     let other = if rng.chance(1, 2) {
         let lg = log.clone();
-        let o = l.map(move |v| {
+        let o = l_in.map(move |v| {
             lg.borrow_mut().push(Ev::Other { l: *v });
             *v
         });
@@ -86,7 +100,7 @@ fn inner(seed: u64, actions: &mut Vec<String>, reads: &mut u64, nontrivial: &mut
     let token: Rc<()> = Rc::new(());
     let b1: Incr<i64> = {
         let (yw, xw, rs, b2s, log, g1c, g2c, st2, tok) = (y.watch(), x.watch(), rs.clone(), b2s.clone(), log.clone(), g1c.clone(), g2c.clone(), st.weak(), token.clone());
-        l.bind(move |&v1| {
+        l_in.bind(move |&v1| {
             let tok = tok.clone();
             let g1 = g1c.get() + 1;
             g1c.set(g1);
@@ -119,7 +133,14 @@ fn inner(seed: u64, actions: &mut Vec<String>, reads: &mut u64, nontrivial: &mut
     let mut cur_g1 = 0u64;
     let n_actions = 20 + rng.below(40);
     for step in 0..n_actions {
-        match if step == 0 { 9 } else { rng.below(12) } {
+        match if step == 0 { 9 } else { rng.below(13) } {
+            12 => {
+                if switching {
+                    let g = !grow.get();
+                    grow.set(g);
+                    actions.push(format!("B1's input takes the {} route", if g { "tall" } else { "short" }));
+                }
+            }
             0 | 1 => {
                 // observe the current B2 (B1 is necessary: it has been observed since the start)
                 if b2_obs.is_none() && cur_g1 > 0 {
@@ -308,7 +329,8 @@ fn inner(seed: u64, actions: &mut Vec<String>, reads: &mut u64, nontrivial: &mut
         rs.borrow_mut().clear();
         b2s.borrow_mut().clear();
         drop(b1);
-        drop((l, y, x));
+        drop(l_in);
+        drop((l, y, x, grow));
     }));
     if let Err(e) = r {
         return Err(("C12".into(), format!("teardown panicked: {}", crate::panic_message(e))));
